@@ -44,11 +44,21 @@ OVERLAP = [(tr, r, n, f, gap) for tr in ("udp", "tcp") for r in (0, 2) for n in 
 TOGGLE_CLOSE = [(tr, mid) for tr in ("udp", "tcp") for mid in ("none", "sleep", "newloop")]
 
 
+# objects obtained through the package entry points: whatever connect()/discover() do internally (probing objects,
+# temporary settings), nothing stays open behind the returned inverter and no two transports are open at once
+ENTRY = [(which, fam, tr) for which in ("connect", "discover") for fam in ("ET", "DT", "ES") for tr in ("udp", "tcp")
+         if not (fam == "ES" and tr == "tcp")]
+
+
 def n_cases(tier):
-    return N_RANDOM[tier] + len(FIN_RACE) + len(OVERLAP) + len(TOGGLE_CLOSE)
+    return N_RANDOM[tier] + len(FIN_RACE) + len(OVERLAP) + len(TOGGLE_CLOSE) + len(ENTRY)
 
 
 def make_case(tier, seed, index):
+    if index >= N_RANDOM[tier] + len(FIN_RACE) + len(OVERLAP) + len(TOGGLE_CLOSE):
+        which, fam, tr = ENTRY[index - N_RANDOM[tier] - len(FIN_RACE) - len(OVERLAP) - len(TOGGLE_CLOSE)]
+        return {"kind": "entry", "which": which, "family": fam, "transport": tr, "keep_alive": False, "timeout": 0.5,
+                "retries": 1, "steps": []}
     if index >= N_RANDOM[tier] + len(FIN_RACE) + len(OVERLAP):
         tr, mid = TOGGLE_CLOSE[index - N_RANDOM[tier] - len(FIN_RACE) - len(OVERLAP)]
         steps = [{"op": "req", "faults": [], "connects": []}, {"op": "toggle"}]
@@ -136,7 +146,7 @@ def make_case(tier, seed, index):
 
 def simplify(case):
     out = []
-    if case.get("kind") == "overlap":
+    if case.get("kind") in ("overlap", "entry"):
         return out
     for i, s in enumerate(case["steps"]):
         if s["op"] == "sleep" and s["d"] > 0.25:
@@ -200,7 +210,64 @@ def run_overlap(case):
     return C.package(world, case, violations, sig, True, {"overlap_cases": 1, "transports_opened": len(net.transports)})
 
 
+def run_entry(case):
+    goodwe, gp, ge = C.goodwe_mods()
+    from . import devices
+    fam, tr, which = case["family"], case["transport"], case["which"]
+    world = World(max_steps=200_000)
+    if fam == "ET":
+        dev = devices.make_et(fill="zero", comm_addr=0xF7)
+    elif fam == "DT":
+        # over UDP it answers its own address only (other families' probes time out); over TCP it answers every unit id
+        # and REFUSES the registers it does not have (the ET probe gets ILLEGAL DATA ADDRESS)
+        dev = devices.make_dt(fill="zero", comm_addr=0x7F if tr == "udp" else None)
+    else:
+        dev = devices.make_es(runtime=bytes(142), settings=bytes(86), fill="zero")
+    world.net.add_device(C.HOST, C.port_of(tr), dev)
+    net = world.net
+    state = {}
+
+    async def main():
+        if which == "connect":
+            rec = await C.do_call(world, "connect", lambda: goodwe.connect(C.HOST, C.port_of(tr), fam, 0, 0.5, 1))
+        else:
+            rec = await C.do_call(world, "discover", lambda: goodwe.discover(C.HOST, C.port_of(tr), 0.5, 1))
+        state["rec"] = rec
+        state["open_after"] = len(net.open_transports())
+        await asyncio.sleep(3.0)
+        state["open_later"] = len(net.open_transports())
+        if rec["outcome"] == "result" and rec["value"] is not None:
+            r2 = await C.do_call(world, "poll", rec["value"].read_runtime_data)
+            state["open_after_poll"] = len(net.open_transports())
+
+    status, _ = C.run_world(world, main())
+    violations = []
+    if status != "ok":
+        violations.append(viol(f"C10:hang:{tr}", f"{which}() did not terminate: {status}"))
+    for k in ("open_after", "open_later", "open_after_poll"):
+        if state.get(k):
+            violations.append(viol(f"C10:left-open:{tr}:{which}",
+                                   f"{which}({fam}) over {tr}, keep-alive at its default (off): {state[k]} transport(s) open "
+                                   f"({k.replace('_', ' ')})"))
+            break
+    open_now = set()
+    for e in world.events:
+        if e[2] == "open":
+            if open_now:
+                violations.append(viol(f"C10:two-open:{tr}:{which}", f"{which}({fam}): transport #{e[4]} opened at t={e[1]} while "
+                                       f"{sorted(open_now)} still open"))
+                break
+            open_now.add(e[4])
+        elif e[2] == "close":
+            open_now.discard(e[4])
+    rec = state.get("rec") or {}
+    sig = ("entry", which, fam, tr, rec.get("outcome"))
+    return C.package(world, case, violations, sig, True, {"entry_cases": 1, "transports_opened": len(net.transports)})
+
+
 def run_case(case):
+    if case.get("kind") == "entry":
+        return run_entry(case)
     if case.get("kind") == "overlap":
         return run_overlap(case)
     goodwe, gp, ge = C.goodwe_mods()
